@@ -935,9 +935,12 @@ class Vector():
 
 	def _unary_operation(self, op_func, op_name: str):
 		"""Helper function to handle unary operations on each element."""
+		result_values = tuple(op_func(x) for x in self)
+		# Type the result by its values (-True is the int -1), as binary operations do
+		result_dtype = infer_dtype(result_values) if result_values else self._dtype
 		return Vector(
-			tuple(op_func(x) for x in self),
-			dtype=self._dtype,
+			result_values,
+			dtype=result_dtype,
 			name=self._name,
 			as_row=self._display_as_row
 		)
@@ -997,7 +1000,7 @@ class Vector():
 					vals.append(None)
 				else:
 					vals.append(x + y)
-			return Vector(vals, dtype=self._dtype, name=None, as_row=self._display_as_row)
+			return Vector(vals, dtype=infer_dtype(vals) if vals else self._dtype, name=None, as_row=self._display_as_row)
 		
 		# Scalar + Vector
 		if not isinstance(other, Iterable) or isinstance(other, (str, bytes, bytearray)):
@@ -1007,7 +1010,7 @@ class Vector():
 					vals.append(None)
 				else:
 					vals.append(other + x)
-			return Vector(vals, dtype=self._dtype, name=None, as_row=self._display_as_row)
+			return Vector(vals, dtype=infer_dtype(vals) if vals else self._dtype, name=None, as_row=self._display_as_row)
 		
 		# Iterable + Vector
 		if isinstance(other, Iterable) and not isinstance(other, (str, bytes, bytearray)):
@@ -1019,7 +1022,7 @@ class Vector():
 					vals.append(None)
 				else:
 					vals.append(x + y)
-			return Vector(vals, dtype=self._dtype, name=None, as_row=self._display_as_row)
+			return Vector(vals, dtype=infer_dtype(vals) if vals else self._dtype, name=None, as_row=self._display_as_row)
 		
 		raise SerifTypeError(f"Unsupported operand type: {type(other).__name__}")
 
